@@ -229,8 +229,8 @@ MANIFEST_TEXT = {
             "text": "Bounded: C18.blocks - 200 (thorough 2000) generated descriptions of 1..40 blocks of 28 kinds with 1..6 attributes (number, bare word, quoted text with blanks / commas / accents, name list, number list) printed in 1152 layouts (LF / CRLF, comments and blank lines, indentation and trailing blanks, attribute order, 4 number formats incl. 1.5E+03, quoted words, 3 list layouts incl. ')' on its own line, legacy preamble): name, type, parent and every attribute value of every block. C18.relayout - the BDL text of the 12 projects and 56 legacy files re-printed line by line in 12 (thorough 576) layouts gives the same bdl::Data. C18.typed - every window, wall, space + polygon, material, layer set, glazing, frame, window construction, rectangular shade and thermal bridge of the 68 files against the values written in its block, with the documented legacy defaults. C18.kyg / C18.tbl - either decimal separator, blanks, line ends. Not covered: blocks without attributes, other spacing around '=', the old KyG column layout.",
             "note": "The typed oracle reads the written values through the generic block parser, whose own recovery is what C18.blocks checks against the printed description; the printer emits only the layouts listed. " + _TB},
     "C01": {"technique": "contract on cli_main / thor main (exit status and standard output as postcondition), observed by running the real binaries built from the scratch copy and comparing with collect_hulc_data / Model::try_from called in-process (bounded stand-in; no verifier here models process I/O)",
-            "text": "Bounded: the hulc2model binary on the 12 shipped project directories x {default, --use-extra} (also given with a trailing slash and as a relative path) exits 0 and its standard output is exactly one JSON document (serde_json rejects any other text around it) that loads as the model the library yields (compared with the library's model itself); on an empty directory, a directory without project, a missing one and two directories whose project the library rejects (file cut in half, broken reference) it exits non-zero and writes no JSON, as it does with --use-extra on a copy of cubo whose result file is damaged (the library fails there); two synthetic variants of cubo with a zero-area ground slab convert and export a document that loads; thor -o writes byte-identical library JSON for the 12 project files, into a new file and over an existing longer one. About 170 process runs per check; nothing is discharged deductively.",
-            "note": "Besides the shipped projects only three hand-made variants of cubo are run; 'synthetic projects written by the verifier's BDL printer' of the property text are not generated at large. " + _TB},
+            "text": "Bounded: the hulc2model binary on the 12 shipped project directories x {default, --use-extra} (also given with a trailing slash and as a relative path) exits 0 and its standard output is exactly one JSON document (serde_json rejects any other text around it) that loads as the model the library yields (compared with the library's model itself); on an empty directory, a directory without project, a missing one and two directories whose project the library rejects (file cut in half, broken reference) it exits non-zero and writes no JSON, as it does with --use-extra on a copy of cubo whose result file is damaged (the library fails there); four synthetic variants of cubo (zero-area ground slab with / without perimeter insulation, turned by 30 degrees with a shifted space, protections on every window) convert and export a document that loads; thor -o writes byte-identical library JSON for the 12 project files, into a new file and over an existing longer one. About 190 process runs per check; nothing is discharged deductively.",
+            "note": "Besides the shipped projects only five hand-made variants of cubo are run; 'synthetic projects written by the verifier's BDL printer' of the property text are not generated at large. " + _TB},
     "C19": {"technique": "Kani proofs that Polygon::edge_vertices / mirror_y are total (no panic for any vertex name / an empty polygon) + contract 'returns Ok or Err, never panics, returns within 60 s' on parse_with_catalog + Model::try_from, bdl::Data::new, kyg::parse, tbl::parse and collect_hulc_data, evaluated on the real code over single-line damage of every shipped file (bounded stand-in; quick = a seeded slice, thorough = every line)",
             "text": "Bounded: 8 kinds of single-line damage (line deleted / duplicated, truncation, number -> text / 1e39 / -7, block removed, reference renamed) applied to every 8th line of the 12 .ctehexml projects, every 20th line of the 56 legacy .cte files, every 4th line of the KyG / tbl files and every 6th line of the result files of two projects read through collect_hulc_data (quick, offset by VERIF_SEED); thorough applies them to every line (2.7 million damaged files). Each crash site is its own obligation clause; the crash sites in the unfinished systems parser are listed as known findings, every other site is a violation.",
             "note": "A crash is identified by source file + normalised panic message, so two unwrap() sites of one file with the same message share an identity. " + _TB},
